@@ -21,6 +21,7 @@ import DiskfsModel.Proofs.FatTreeImgWr
 import DiskfsModel.Proofs.FatTreeImgStep
 import DiskfsModel.Generated.Fat
 import DiskfsModel.Proofs.FatBoot
+import DiskfsModel.Proofs.FatEmptyWrite
 import DiskfsModel.Spec.FatBoot
 namespace Diskfs.Fat.C08
 
@@ -402,6 +403,70 @@ example : GeomOk ⟨.f12, 3072, 2849, 512⟩ :=
   ⟨by intro c hc; have : c < 2849 := by simpa using hc
       simp only [Kind.isEOC]; simp; omega, by decide⟩
 example : Inv .f12 (min 10 10) exTable [[2], [3, 4]] := ex_inv
+
+/-! ### zero-length writes -/
+
+/-- **empty_write_keeps_invariant**: `File.Write` of an empty buffer, mirrored without a shortcut
+    for `len(p) = 0` (`fileWriteRaw`), at an offset inside a well-formed file or at its end (not a
+    positive whole number of clusters): accepted, chain and size as before, and the table it leaves
+    - for an EMPTY file allocateSpace(0, c) goes through the shrink branch with count = 0, keeps the
+    first cluster and marks it end-of-chain again, whatever end-of-chain value it carried - still
+    meets the invariant with the SAME owners: the cluster stays the file's, nobody else can be
+    handed it.  (A shrink that released `clusters[count:]` for count = 0 would free a cluster its
+    directory entry still names: `cex_shrink_to_zero_frees_owned`.) -/
+theorem empty_write_keeps_invariant (g : FGeom) (fuel : Nat) (m : CMap) (d : Dev) (l : List Nat)
+    (others : List (List Nat)) (size off : Nat)
+    (hb : 0 < g.io.bpc) (hlim : LimOk g.kind g.lim) (hmax : g.lim ≤ g.max) (hf : l.length ≤ fuel)
+    (h : Inv g.kind g.lim m (l :: others))
+    (hlen : l.length = Nat.max (clusterCount g.io.bpc size) 1)
+    (hoff : off ≤ size) (hnb : ¬ (0 < off ∧ off = size ∧ off % g.io.bpc = 0)) :
+    ∃ m' w, fileWriteRaw g fuel m d l size off [] = .ok m' d l size w ∧
+      Inv g.kind g.lim m' (l :: others) ∧ (∀ i, i ≠ l.headD 0 → m' i = m i) := by
+  have hlen' : l.length = Nat.max (cnt size g.io.bpc) 1 := hlen
+  have ha := alloc_same_size (pick := firstFit g.lim) (bpc := g.io.bpc) h hlim hmax hf hlen'
+  have hns : Nat.max size (off + ([] : Bytes).length) = size := by
+    show Max.max size (off + 0) = size; omega
+  have hwH : writeH true g.io l size off [] = writeCore g.io l off [] := by
+    unfold writeH; rw [if_neg (by intro hh; exact absurd hh.2 (by omega))]
+  have hin := off_cluster_in_chain (len := l.length) hb hlen' hoff hnb
+  have hsome : ∃ ws, writeCore g.io l off [] = some ws := by
+    cases hw : writeCore g.io l off [] with
+    | some ws => exact ⟨ws, rfl⟩
+    | none =>
+      have := (writeCore_nil_none_iff g.io l off).1 hw
+      rcases hin with h0 | hlt
+      · exact absurd h0 this.1
+      · omega
+  obtain ⟨ws, hws⟩ := hsome
+  have hd : applyWrs d ws = d := applyWrs_empty d ws (writeCore_nil_empty g.io l off ws hws)
+  by_cases hc : cnt size g.io.bpc = 0
+  · have hl1 : l.length = 1 := by rw [hlen', hc]; rfl
+    match l, hl1, h, ha, hws with
+    | [c], _, h, ha, hws =>
+      refine ⟨m.set c g.kind.eoc, true, ?_, alloc_zero_keeps_inv h, fun i hi => CMap.set_ne m _ hi⟩
+      unfold fileWriteRaw falloc
+      simp only [hns]
+      rw [ha, if_pos hc]
+      simp only [List.headD_cons, hwH, hws, hd]
+  · refine ⟨m, false, ?_, h, fun _ _ => rfl⟩
+    unfold fileWriteRaw falloc
+    simp only [hns]
+    rw [ha, if_neg hc]
+    simp only [hwH, hws, hd]
+
+example : ∃ m' w, fileWriteRaw ⟨.f12, 10, 10, ⟨0, 0, 4⟩⟩ 8 exTable (fun _ => 7) [2] 0 0 [] = .ok m' (fun _ => 7) [2] 0 w ∧
+    Inv .f12 10 m' ([2] :: [[3, 4]]) ∧ (∀ i, i ≠ 2 → m' i = exTable i) :=
+  empty_write_keeps_invariant ⟨.f12, 10, 10, ⟨0, 0, 4⟩⟩ 8 exTable (fun _ => 7) [2] [[3, 4]] 0 0 (by decide) ex_limOk
+    (Nat.le_refl _) (by decide) ex_inv (by decide) (Nat.le_refl _) (by omega)
+
+/-- a shrink branch that releases `clusters[count:]` and writes the end-of-chain mark only when
+    count > 0 (a tidied-up allocateSpace without the clamp `lastAlloc < 0 → 0`) breaks the
+    invariant on allocateSpace(0, c): the cluster of an empty file is free while its entry still
+    owns it, and the first-fit scan hands it to the next file -/
+theorem cex_shrink_to_zero_frees_owned :
+    ¬ invB .f12 10 (freeAll exTable ([2].drop 0)) [[2], [3, 4]] = true
+    ∧ firstFit 10 (freeAll exTable ([2].drop 0)) 1 = [2]
+    ∧ invB .f12 10 (allocateSpace .f12 10 4 (firstFit 10) 8 exTable 0 2).m [[2], [3, 4]] = true := by decide
 
 /-! ### the parsed entries of the volume's bytes -/
 
